@@ -118,34 +118,24 @@ gate_shape!(o15_1_gate_gap_first_frame, 7, 0, 0b10, inside, false, true);
 //@bound log of 2 frames at base 7; ack group shape: bitfield 0 (dud) and bitfield with only bit 31 set; nonces etc. any
 gate_shape!(o15_1_gate_top_bit, 7, 0, 0x8000_0000);
 
-//@h props=C15,C14 tier=quick timeout=1500 role=ack-replay unwindset=FrameQueue17acknowledge_group.0:34
-//@fn FrameQueue::{push, acknowledge_group}, FeedbackGen::{put_ack_data, notify_ack}
-//@bound log of 2 frames at base 2^32-1; a genuine group acknowledging both frames is processed and its pending feedback is consumed (as get_feedback does); then the SAME group arrives again (network duplicate or delayed replay)
-#[kani::proof]
-#[kani::unwind(6)]
-fn o15_2_replayed_ack_has_no_effect() {
-    let (mut fq, p0, p1, n0, n1, t1) = two_frames(0xFFFF_FFFF);
-    let g = frame::AckGroup { base_id: 0xFFFF_FFFF, bitfield: 0b11, nonce: n0 ^ n1 };
-    let rtt = if kani::any() { Some(kani::any::<u64>() & 0xFFFF) } else { None };
-    fq.acknowledge_group(g.clone(), rtt);
-    let fb1 = fq.feedback_gen.ack_data.take();
-    assert!(fb1.is_some(), "[C15] a genuine fresh acknowledgement produces one feedback sample");
-    assert!(fb1.as_ref().unwrap().last_send_time_ms == t1, "[C14,C15] the RTT sample is measured from the newest acknowledged frame");
-    let mid = snapshot(&fq, &p0, &p1);
-    // replay
-    fq.acknowledge_group(g, rtt);
-    let after = snapshot(&fq, &p0, &p1);
-    assert!(same(&mid, &after), "[C15] a repeated copy of an earlier acknowledgement changes no acknowledgement, loss or reorder state");
-    assert!(fq.feedback_gen.ack_data.is_none(), "[C15] a repeated copy of an earlier acknowledgement produces no RTT / receive-rate sample");
-    std::mem::forget(fq); std::mem::forget(p0); std::mem::forget(p1);
+struct Snap2 { acked0: bool, acked1: bool, has_ack_data: bool, rb_base: u32, rb_count: u32, li_len: usize, li_front_len: u32, log_len: u32 }
+fn snap2(fq: &FrameQueue) -> Snap2 {
+    Snap2 {
+        acked0: fq.frame_log.frames.get(0).map_or(false, |f| f.acked),
+        acked1: fq.frame_log.frames.get(1).map_or(false, |f| f.acked),
+        has_ack_data: fq.feedback_gen.ack_data.is_some(),
+        rb_base: crate::half_connection::reorder_buffer::verif_reorder_buffer::base_of(&fq.feedback_gen.reorder_buffer),
+        rb_count: crate::half_connection::reorder_buffer::verif_reorder_buffer::count_of(&fq.feedback_gen.reorder_buffer),
+        li_len: crate::half_connection::loss_rate::verif_loss_rate::len_of(&fq.feedback_gen.loss_intervals),
+        li_front_len: crate::half_connection::loss_rate::verif_loss_rate::front_len_of(&fq.feedback_gen.loss_intervals),
+        log_len: fq.frame_log.len(),
+    }
 }
 
-//@h props=C15,C14 tier=quick timeout=1500 role=ack-overlap unwindset=FrameQueue17acknowledge_group.0:34
-//@fn FrameQueue::{push, acknowledge_group}, FeedbackGen::{put_ack_data, notify_ack}
-//@bound log of 2 frames at base 2^32-1 sent at any t0 <= t1; the SECOND frame is acknowledged first and its feedback consumed; then a genuine group covering BOTH frames arrives (one fresh bit, one repeated bit)
-#[kani::proof]
-#[kani::unwind(6)]
-fn o15_2_overlapping_ack_counts_only_new_frames() {
+fn replay_shape(pre_acked0: bool, pre_acked1: bool) {
+    // Pre-state: a log of 2 frames of which some were acknowledged by an EARLIER group whose feedback has been
+    // consumed (acked flag set, no pending ack data) - exactly what FrameQueue::acknowledge_group + get_feedback
+    // leave behind (the flag is the only per-frame trace of an acknowledgement).
     let mut fq = FrameQueue::new(4, 4, 0xFFFF_FFFF);
     let (n0, n1): (bool, bool) = (kani::any(), kani::any());
     let (t0, t1): (u64, u64) = (kani::any(), kani::any());
@@ -153,20 +143,52 @@ fn o15_2_overlapping_ack_counts_only_new_frames() {
     let (s0, s1): (u16, u16) = (kani::any(), kani::any());
     fq.push(s0 as usize, t0, Box::new([]), n0);
     fq.push(s1 as usize, t1, Box::new([]), n1);
+    if pre_acked0 { fq.frame_log.frames.get_mut(0).unwrap().acked = true; }
+    if pre_acked1 { fq.frame_log.frames.get_mut(1).unwrap().acked = true; }
+    let before = snap2(&fq);
     let rtt = if kani::any() { Some(kani::any::<u64>() & 0xFFFF) } else { None };
-    fq.acknowledge_group(frame::AckGroup { base_id: 0, bitfield: 0b1, nonce: n1 }, rtt);
-    let fb1 = fq.feedback_gen.ack_data.take();
-    assert!(fb1.is_some() && fb1.as_ref().unwrap().last_send_time_ms == t1 && fb1.as_ref().unwrap().total_ack_size == s1 as usize, "[C14,C15] sample built from the acknowledged frame");
-    // overlapping group: frame 0 fresh, frame 1 repeated
+    // a genuine group (right nonce parity) covering both frames arrives: duplicate / delayed replay / overlap
     fq.acknowledge_group(frame::AckGroup { base_id: 0xFFFF_FFFF, bitfield: 0b11, nonce: n0 ^ n1 }, rtt);
-    let fb2 = fq.feedback_gen.ack_data.take();
-    assert!(fb2.is_some(), "[C15] the fresh part of the group is acknowledged");
-    let fb2 = fb2.unwrap();
-    assert!(fb2.last_send_time_ms == t0, "[C15] the repeated bit does not contribute to the RTT sample (only newly acknowledged frames do)");
-    assert!(fb2.total_ack_size == s0 as usize, "[C15] the repeated bit does not contribute to the receive-rate sample");
-    kani::cover!(t0 < t1, "repeated frame was sent later than the fresh one");
+    let after = snap2(&fq);
+    assert!(after.acked0 && after.acked1);
+    if pre_acked0 && pre_acked1 {
+        assert!(before.rb_base == after.rb_base && before.rb_count == after.rb_count && before.li_len == after.li_len
+                && before.li_front_len == after.li_front_len && before.log_len == after.log_len,
+                "[C15] a repeated copy of an earlier acknowledgement changes no acknowledgement, loss or reorder state");
+        assert!(fq.feedback_gen.ack_data.is_none(), "[C15] a repeated copy of an earlier acknowledgement produces no RTT / receive-rate sample");
+    } else {
+        let fb = fq.feedback_gen.ack_data.take();
+        assert!(fb.is_some(), "[C15] the fresh part of the group is acknowledged");
+        let fb = fb.unwrap();
+        // only newly acknowledged frames contribute to the sample
+        let exp_t = if !pre_acked1 { t1 } else { t0 };
+        let exp_s = (if !pre_acked0 { s0 as usize } else { 0 }) + (if !pre_acked1 { s1 as usize } else { 0 });
+        assert!(fb.last_send_time_ms == exp_t, "[C15,C14] a repeated bit does not contribute to the RTT sample (only newly acknowledged frames do)");
+        assert!(fb.total_ack_size == exp_s, "[C15,C14] a repeated bit does not contribute to the receive-rate sample");
+    }
     std::mem::forget(fq);
 }
+
+//@h props=C15,C14 tier=quick timeout=1500 role=ack-replay unwindset=FrameQueue17acknowledge_group.0:34
+//@fn FrameQueue::{push, acknowledge_group}, FeedbackGen::{put_ack_data, notify_ack}
+//@bound log of 2 frames at base 2^32-1, BOTH already acknowledged by an earlier group (feedback consumed); the same genuine group arrives again
+#[kani::proof]
+#[kani::unwind(6)]
+fn o15_2_replayed_ack_has_no_effect() { replay_shape(true, true); }
+
+//@h props=C15,C14 tier=quick timeout=1500 role=ack-overlap unwindset=FrameQueue17acknowledge_group.0:34
+//@fn FrameQueue::{push, acknowledge_group}, FeedbackGen::{put_ack_data, notify_ack}
+//@bound log of 2 frames sent at any t0 <= t1; the SECOND (later) frame already acknowledged; a genuine group covering both arrives (one fresh bit, one repeated bit)
+#[kani::proof]
+#[kani::unwind(6)]
+fn o15_2_overlapping_ack_counts_only_new_frames() { replay_shape(false, true); }
+
+//@h props=C15,C14 tier=thorough timeout=1500 role=ack-overlap unwindset=FrameQueue17acknowledge_group.0:34
+//@fn FrameQueue::{push, acknowledge_group}, FeedbackGen::{put_ack_data, notify_ack}
+//@bound as above with the FIRST frame already acknowledged
+#[kani::proof]
+#[kani::unwind(6)]
+fn o15_2_overlapping_ack_first_frame_repeated() { replay_shape(true, false); }
 
 //@h props=C03,C15 tier=quick timeout=1200 role=ack-gate-clear-bit unwindset=FrameQueue17acknowledge_group.0:34
 //@fn FrameQueue::{push, acknowledge_group}
